@@ -82,6 +82,24 @@ def run(ctx):
         raise vlib.Inconclusive("no many-module script ran")
     ctx.evaluations += many
     ctx.cov["many_module_scripts"] = many
+    # modules delivered by an importer with canonical names (file importer over an in-memory tree): relative names,
+    # two spellings of one file, cycles written with relative names
+    fres = ctx.path("modfiles.ndjson")
+    ctx.vh("modfiles", fres, timeout=900)
+    nfiles = 0
+    for r in vlib.read_ndjson(fres):
+        if r.get("done"):
+            nfiles = r["n"]
+            continue
+        ctx.evaluations += 1
+        ctx.traces_validated += 1
+        ctx.nontrivial.add("files:%s:%s" % (r["name"], r["noopt"]))
+        if not r["ok"]:
+            ctx.violation("files:%s:%s" % (r["name"], r["noopt"]), "module layout %s (noopt=%s): %s\n%s" % (r["name"], r["noopt"], r["what"], json.dumps(r.get("files"), indent=1)),
+                          dict(kind="sem", id=dict(layout=r["name"], noopt=r["noopt"]), src=json.dumps(r.get("files"), indent=1), want="see the layout's expectation in harness/cmd/vh/c12.go"))
+    if nfiles == 0:
+        raise vlib.Inconclusive("no module layouts ran")
+    ctx.cov["module_layouts"] = nfiles
     if n == 0 and not ctx.violations:
         raise vlib.Inconclusive("no programs")
     ctx.cov["programs"] = n
